@@ -1667,12 +1667,14 @@ namespace
         std::string P, subj, S;
         uint64_t scenSeed = 0;
         uint32_t libSeed = 0;
+        std::string cfg;      // drawn planner configuration that matters for the diagnosis
         std::string hist;     // calls made so far in this scope
         bool dirty = false;   // a new problem definition was given to a planner that still held its previous query
         J detail(const std::string &what) const
         {
             J j;
             j.str("planner", subj).str("system", S).str("what", what).str("history", hist).u("lib_seed", libSeed);
+            if (!cfg.empty()) j.str("planner_config", cfg);
             j.str("scenario_seed", std::to_string(scenSeed)).b("after_setProblemDefinition_without_clear", dirty);
             return j;
         }
@@ -1830,11 +1832,13 @@ namespace
         cx.sink.count("c03c_states_allocated", stTr.allocs);
         cx.sink.count("c03c_controls_allocated", ctTr.allocs);
         const std::string sfx = exported ? "-after-getPlannerData" : "";
+        // input class in the key: SyclopRRT keeps its motions in a different structure when regional nearest neighbours are on
+        const std::string cls = cx.cfg == "regionalNearestNeighbors=true" ? ":regional-nn" : "";
         if (stTr.liveCount() > 0)
-            cx.viol("leak-states" + sfx, cx.detail("states still allocated after planner, problem definition, paths and planner data were destroyed")
+            cx.sink.viol("C03:leak-states" + sfx + ":" + cx.subj + cls, cx.detail("states still allocated after planner, problem definition, paths and planner data were destroyed")
                                             .i("leaked", stTr.liveCount()).i("allocated", stTr.allocs));
         if (ctTr.liveCount() > 0)
-            cx.viol("leak-controls" + sfx, cx.detail("controls still allocated after planner, problem definition, paths and planner data were destroyed")
+            cx.sink.viol("C03:leak-controls" + sfx + ":" + cx.subj + cls, cx.detail("controls still allocated after planner, problem definition, paths and planner data were destroyed")
                                               .i("leaked", ctTr.liveCount()).i("allocated", ctTr.allocs));
         if (stTr.badFrees > 0)
             cx.viol("bad-free", cx.detail("freeState() called on a pointer that is not a live state (double free)").i("n", stTr.badFrees));
@@ -1842,10 +1846,19 @@ namespace
             cx.viol("bad-free", cx.detail("freeControl() called on a pointer that is not a live control (double free)").i("n", ctTr.badFrees));
     }
 
+    // evaluation budget of a normal solve() call: the budget C02 draws for the scenario (quick 1500..25000), capped in the
+    // thorough tier (2000..60000 there)
     unsigned long c03Budget(const Scen &sc, Rng &rng, const Args &a)
     {
         const unsigned long drawn = sc.drawBudget(rng);
-        return std::min<unsigned long>(drawn, a.thorough() ? 8000ul : 5000ul);
+        return std::min<unsigned long>(drawn, a.thorough() ? 30000ul : 25000ul);
+    }
+
+    std::string configOf(const Scen &sc)
+    {
+        if (sc.pl == P_SYRRT) return sc.regionalNN ? "regionalNearestNeighbors=true" : "regionalNearestNeighbors=false";
+        if (sc.pl == P_SST) return sc.sstStopAtFirst ? "objective satisfied by any solution" : "default objective";
+        return "";
     }
 
     void c03Interrupt(Sink &sink, const Args &a, long c, int pl, long block, long combo, int nblocks, int blockSize)
@@ -1857,6 +1870,7 @@ namespace
         // query (only invalid start states; Syclop without a sampleable goal) are left to the history part.
         uint64_t scenSeed = 0;
         unsigned long budget = 0;
+        std::string cfg;
         bool have = false;
         for (int salt = 0; salt < 50 && !have; ++salt)
         {
@@ -1868,6 +1882,7 @@ namespace
             if (s.q->onlyInvalidStarts) continue;
             if ((pl == P_SYRRT || pl == P_SYEST) && s.q->goalKind == 2) continue;
             budget = c03Budget(*s.sc, r, a);
+            cfg = configOf(*s.sc);
             have = true;
         }
         if (!have)
@@ -1876,7 +1891,7 @@ namespace
             sink.noteCase(0, false);
             return;
         }
-        C3 cx{sink, P, "control::" + P, SYSTEMS[sk], scenSeed, libSeed, "", false};
+        C3 cx{sink, P, "control::" + P, SYSTEMS[sk], scenSeed, libSeed, cfg, "", false};
         // one scope: fresh scenario + planner from the same seeds
         auto fresh = [&](C3Scope &s, const std::shared_ptr<Tracker> &stTr, const std::shared_ptr<Tracker> &ctTr) {
             Rng r(scenSeed);
@@ -1980,7 +1995,7 @@ namespace
         const uint32_t libSeed = (uint32_t)(caseSeed(a, c, 1) % 1000000000ULL + 1);
         const uint64_t scenSeed = caseSeed(a, c);
         Rng rng(scenSeed);
-        C3 cx{sink, P, "control::" + P, SYSTEMS[sk], scenSeed, libSeed, "", false};
+        C3 cx{sink, P, "control::" + P, SYSTEMS[sk], scenSeed, libSeed, "", "", false};
         auto stTr = std::make_shared<Tracker>(), ctTr = std::make_shared<Tracker>();
         bool exported = false;
         int nsolves = 0, nops = 0;
@@ -1995,6 +2010,7 @@ namespace
                 return;
             }
             Scen &sc = *s.sc;
+            cx.cfg = configOf(sc);
             const unsigned long budget = c03Budget(sc, rng, a);
             int len = 2 + (int)rng.ui(7);
             // the first two histories of every planner are fixed:
@@ -2008,10 +2024,19 @@ namespace
             bool clean = true;  // the planner holds nothing of an earlier query (fresh, or cleared since the last solve())
             const long violBefore = sink.violTotal();
             bool abandoned = false;
-            // a new query in the same world; false if no positions could be placed
+            // a new query in the same world; false if no positions could be placed.  Half of them (and those of the fixed
+            // histories) swap the ends of the current query: the new goal lies where the previous search started, so a planner
+            // that did not forget its tree reaches it from the previous start
             auto newQuery = [&](const ob::ProblemDefinitionPtr &into) {
                 Pos p;
-                if (!sc.drawPositions(rng, p)) return false;
+                if (fixedOps || rng.coin())
+                {
+                    p.sx = s.q->p.gx, p.sy = s.q->p.gy, p.gx = s.q->p.sx, p.gy = s.q->p.sy;
+                    if (!sc.drawFree(rng, p.s2x, p.s2y, 0.25)) return false;
+                    sink.count("c03c_new_queries_swapped_ends");
+                }
+                else if (!sc.drawPositions(rng, p))
+                    return false;
                 if (into)
                 {
                     into->clearSolutionPaths();
@@ -2046,7 +2071,9 @@ namespace
                         case OP_SOLVE0:
                         {
                             const auto before = s.q->pdef->getSolutions();
-                            const unsigned long limit = op == OP_SOLVE0 ? 0ul : std::max(50ul, (unsigned long)(budget * rng.uni(0.1, 0.6)));
+                            unsigned long limit = op == OP_SOLVE0 ? 0ul : std::max(50ul, (unsigned long)(budget * rng.uni(0.1, 0.6)));
+                            // fixed history 0: a full first search, so that the tree the planner should forget is a large one
+                            if (hidx == 0 && step == 0) limit = budget;
                             CallResult r = solveCall(cx, s, limit, !s.q->pdef->hasExactSolution(), OPN[op]);
                             ++nsolves;
                             if (cx.dirty) sink.count("c03c_solves_after_dirty_switch");
@@ -2102,16 +2129,47 @@ namespace
                         {
                             // alternately with and without control information on the edges
                             std::unique_ptr<ob::PlannerData> pd;
-                            if (rng.coin()) pd.reset(new oc::PlannerData(sc.si));
+                            const bool withControls = rng.coin();
+                            if (withControls) pd.reset(new oc::PlannerData(sc.si));
                             else pd.reset(new ob::PlannerData(sc.si));
                             s.planner->getPlannerData(*pd);
-                            // every vertex is a state of this space; touching them lets ASan see stale pointers
+                            // every vertex is a state of this space, every edge control a control of the control space;
+                            // touching them lets ASan see stale pointers
+                            unsigned long nullControls = 0, edgeControls = 0;
                             for (unsigned i = 0; i < pd->numVertices(); ++i)
                             {
                                 const ob::State *st = pd->getVertex(i).getState();
                                 if (st) (void)sc.sys.space->satisfiesBounds(st);
+                                if (!withControls) continue;
+                                std::vector<unsigned int> out;
+                                pd->getEdges(i, out);
+                                for (unsigned j : out)
+                                {
+                                    const auto *ec = dynamic_cast<const oc::PlannerDataEdgeControl *>(&pd->getEdge(i, j));
+                                    const oc::Control *u = ec ? ec->getControl() : nullptr;
+                                    if (!u)
+                                    {
+                                        ++nullControls;
+                                        continue;
+                                    }
+                                    ++edgeControls;
+                                    const double *v = u->as<oc::RealVectorControlSpace::ControlType>()->values;
+                                    if (!(std::isfinite(v[0]) && std::isfinite(v[1]) && std::isfinite(ec->getDuration())))
+                                        sink.count("c03c_plannerdata_nonfinite_edge_controls");
+                                }
                             }
-                            pd->decoupleFromPlanner();
+                            sink.count("c03c_plannerdata_edge_controls_read", (long long)edgeControls);
+                            if (nullControls)
+                            {
+                                // control::PlannerData::decoupleFromPlanner() (and PlannerDataStorage) dereference every edge's
+                                // control: the export is unusable.  Reported here instead of letting the process die there.
+                                cx.viol("plannerdata-null-control", cx.detail("getPlannerData() exported edges without a control into a control::PlannerData "
+                                                                              "(decoupleFromPlanner() dereferences the null pointer)")
+                                                                        .u("edges_without_control", nullControls).u("edges", pd->numEdges()).u("vertices", pd->numVertices()));
+                                pd->ob::PlannerData::decoupleFromPlanner();  // states only
+                            }
+                            else
+                                pd->decoupleFromPlanner();
                             sink.count("c03c_plannerdata_vertices", pd->numVertices());
                             sink.count("c03c_plannerdata_edges", pd->numEdges());
                             exported = true;
